@@ -1,6 +1,7 @@
 package props
 
 import (
+	"strings"
 	"bytes"
 	"fmt"
 	"os"
@@ -45,7 +46,7 @@ func c14Seeds(s *refper.Schema, thorough bool) (seeds [][]byte, names []string) 
 				for i, p := range c.Picks {
 					if p != 0 {
 						lb := c.Labels[i]
-						keep = len(lb) > 4 && (lb[len(lb)-4:] == "#alt" || lb[len(lb)-4:] == "#ies")
+						keep = len(lb) > 4 && (lb[len(lb)-4:] == "#alt" || lb[len(lb)-4:] == "#ies" || strings.HasSuffix(lb, "#mixed-pair"))
 					}
 				}
 				if !keep || g.OutsideRoot {
@@ -154,6 +155,13 @@ func c14rewrap(seed []byte, runs []int, seen map[string]bool, emit func([]byte))
 			rebuild(i, []byte{byte(b)})
 		}
 	}
+	// every IE value with its last 1..3 octets missing (the enclosing lengths say so): the inner decoder runs out of data
+	// in the last field, with a buffer that ends exactly there
+	for i := range ies {
+		for k := 1; k <= 3 && k < len(ies[i].val); k++ {
+			rebuild(i, append([]byte{}, ies[i].val[:len(ies[i].val)-k]...))
+		}
+	}
 	for i := range ies {
 		for pos := 0; pos <= len(ies[i].val); pos++ {
 			for _, b := range []byte{0xc4, 0xc1, 0xff, 0x80} {
@@ -209,7 +217,7 @@ func runC14(ctx *Ctx) {
 		maxLen = 3
 	}
 	seeds, names := c14Seeds(s, ctx.Thorough)
-	altSeeds := seeds // seeds incl. every CHOICE alternative / IE selection: used by the structure-preserving corruptions in both tiers
+	altSeeds := seeds // seeds incl. every CHOICE alternative / IE selection / two-element list with each ordered pair of alternatives: used by the structure-preserving corruptions in both tiers
 	if !ctx.Thorough {
 		altSeeds, _ = c14Seeds(s, true)
 	}
@@ -225,7 +233,7 @@ func runC14(ctx *Ctx) {
 	if ctx.Thorough {
 		pairAlphabet, maxGap = []byte{0x00, 0x01, 0x7f, 0x80, 0x81, 0xbf, 0xc0, 0xc1, 0xc4, 0xc5, 0xfe, 0xff}, 6
 	}
-	r.Rule = fmt.Sprintf("(a) every octet string of length 0..%d; (b) for each of %d seeds (reference encodings of every message type%s): every prefix, every single-octet substitution (len x 255), every single-bit flip, every 2-octet length form {8000,bfff,c4ff,ffff} at every position, runs of 6..200 (thorough: 2..3900) octets c4 / c1 / ff / 80 inserted at every position, the same runs (8 and 64 octets; thorough 2..1000) inserted at every position inside every IE value of every message and CHOICE alternative with the two enclosing length determinants re-computed, every IE value cut to 0..3 octets (last octet also adversarial) or replaced by each single octet with the lengths re-computed, every pair of octets up to %d positions apart replaced by every pair from a %d-value adversarial alphabet (unknown identifiers x fragmented / overlong / zero length determinants)%s; (d) for every procedure code 0..63 and 255 (thorough: all 256) x {initiating, successful, unsuccessful}: container header {000000, 000001} followed by every string of <=4 (thorough: 5 for codes 0..63 and 255) octets over {00,01,02,03,40,80,82,ff}, outer length computed (messages no seed exists for, e.g. PRIVATE MESSAGE); "+
+	r.Rule = fmt.Sprintf("(a) every octet string of length 0..%d; (b) for each of %d seeds (reference encodings of every message type%s): every prefix, every single-octet substitution (len x 255), every single-bit flip, every 2-octet length form {8000,bfff,c4ff,ffff} at every position, runs of 6..200 (thorough: 2..3900) octets c4 / c1 / ff / 80 inserted at every position, the same runs (8 and 64 octets; thorough 2..1000) inserted at every position inside every IE value of every message and CHOICE alternative with the two enclosing length determinants re-computed, every IE value cut to 0..3 octets (last octet also adversarial) or short of its last 1..3 octets or replaced by each single octet with the lengths re-computed, every pair of octets up to %d positions apart replaced by every pair from a %d-value adversarial alphabet (unknown identifiers x fragmented / overlong / zero length determinants)%s; (d) for every procedure code 0..63 and 255 (thorough: all 256) x {initiating, successful, unsuccessful}: container header {000000, 000001} followed by every string of <=4 (thorough: 5 for codes 0..63 and 255) octets over {00,01,02,03,40,80,82,ff}, outer length computed (messages no seed exists for, e.g. PRIVATE MESSAGE); "+
 		"oracle: ngap.Decoder returns (value|error) - no panic, per-call allocation <= %d MiB (schema-legal maximum is ~15 MiB for a 65535-element IE list), per-call CPU time below a %v horizon; each input is decoded in a shard process with an address-space limit; distinct = distinct inputs (hashed); non-trivial = all",
 		maxLen, len(seeds), map[bool]string{true: " and of every value one CHOICE alternative / IE selection away", false: ""}[ctx.Thorough], maxGap, len(pairAlphabet),
 		map[bool]string{true: ", every pair of bit flips in the first 24 octets", false: ""}[ctx.Thorough], c14AllocBound>>20, c14Horizon)
